@@ -2,6 +2,7 @@
 //! scheduling gates, the reference model and the in-binary runners/oracles.
 pub mod asyncx;
 pub mod cb;
+pub mod chainrt;
 pub mod extra;
 pub mod log;
 pub mod model;
